@@ -1,5 +1,23 @@
 package main
 
+import (
+	"fmt"
+	"io"
+	"os"
+	"os/exec"
+	"path/filepath"
+	"regexp"
+	"sort"
+	"strings"
+	"sync"
+)
+
+// Mutation self-test (thorough tier): every committed variant under /verif/mutants/<prop>/ is applied to
+// a scratch copy of /repo's working tree (outside /repo and /verif, removed at once), the property's
+// quick check is run on it in a separate process, and the check must report the expected rule. A
+// variant that applies and is not reported means the checker is defective: the run fails with
+// SELFTEST-FAILED (no VIOLATION line).
+
 type mutResult struct {
 	Total, Killed, Skipped, Failed int
 	Lines                          []string
@@ -10,6 +28,139 @@ func (m mutResult) summary() map[string]interface{} {
 	return map[string]interface{}{"mutants": m.Total, "killed": m.Killed, "skipped": m.Skipped, "survived": m.Failed, "detail": m.Lines}
 }
 
+var (
+	expectRe = regexp.MustCompile(`(?m)^# expect: (.*)$`)
+	whatRe   = regexp.MustCompile(`(?m)^# what: (.*)$`)
+)
+
+func copyTree(src, dst string) error {
+	ents, err := os.ReadDir(src)
+	if err != nil {
+		return err
+	}
+	for _, e := range ents {
+		n := e.Name()
+		if e.IsDir() {
+			continue
+		}
+		if !(strings.HasSuffix(n, ".go") && !strings.HasSuffix(n, "_test.go")) && n != "go.mod" && n != "go.sum" {
+			continue
+		}
+		in, err := os.Open(filepath.Join(src, n))
+		if err != nil {
+			return err
+		}
+		out, err := os.Create(filepath.Join(dst, n))
+		if err != nil {
+			in.Close()
+			return err
+		}
+		_, err = io.Copy(out, in)
+		in.Close()
+		out.Close()
+		if err != nil {
+			return err
+		}
+	}
+	return nil
+}
+
+func runOneMutant(prop, repo, patch string) (verdict string, killed, skipped bool) {
+	name := strings.TrimSuffix(filepath.Base(patch), ".patch")
+	b, err := os.ReadFile(patch)
+	if err != nil {
+		return name + ": unreadable", false, true
+	}
+	expect := ""
+	if m := expectRe.FindSubmatch(b); m != nil {
+		expect = strings.TrimSpace(string(m[1]))
+	}
+	what := ""
+	if m := whatRe.FindSubmatch(b); m != nil {
+		what = strings.TrimSpace(string(m[1]))
+	}
+	tmp, err := os.MkdirTemp("", "shmlint_mut_")
+	if err != nil {
+		return name + ": no scratch dir", false, true
+	}
+	defer os.RemoveAll(tmp)
+	if err := copyTree(repo, tmp); err != nil {
+		return name + ": copy failed: " + err.Error(), false, true
+	}
+	pc := exec.Command("patch", "-p1", "-s", "-i", patch)
+	pc.Dir = tmp
+	if out, err := pc.CombinedOutput(); err != nil {
+		_ = out
+		return fmt.Sprintf("%s: SKIPPED (patch no longer applies: the code it targets was rewritten) [%s]", name, what), false, true
+	}
+	cmd := exec.Command(os.Args[0], "-prop", prop, "-tier", "quick", "-repo", tmp, "-no-evidence")
+	out, err := cmd.CombinedOutput()
+	code := 0
+	if ee, ok := err.(*exec.ExitError); ok {
+		code = ee.ExitCode()
+	} else if err != nil {
+		return name + ": could not run the checker: " + err.Error(), false, false
+	}
+	fired := []string{}
+	for _, e := range strings.Split(expect, ",") {
+		e = strings.TrimSpace(e)
+		if e == "" {
+			continue
+		}
+		if regexp.MustCompile(`(?m)^\s+` + regexp.QuoteMeta(e) + `\b`).Match(out) {
+			fired = append(fired, e)
+		}
+	}
+	switch {
+	case code == 2:
+		return fmt.Sprintf("%s: SKIPPED (variant does not load/type-check any more) [%s]", name, what), false, true
+	case code == 1 && len(fired) > 0:
+		return fmt.Sprintf("%s: killed by %s [%s]", name, strings.Join(fired, ","), what), true, false
+	case code == 1:
+		return fmt.Sprintf("%s: killed by another rule than the expected %s [%s]", name, expect, what), true, false
+	default:
+		return fmt.Sprintf("%s: SURVIVED — expected %s to report it [%s]", name, expect, what), false, false
+	}
+}
+
 func runMutants(prop, repo, dir string) mutResult {
-	return mutResult{}
+	var res mutResult
+	patches, _ := filepath.Glob(filepath.Join(dir, prop, "*.patch"))
+	sort.Strings(patches)
+	res.Total = len(patches)
+	type out struct {
+		line            string
+		killed, skipped bool
+	}
+	outs := make([]out, len(patches))
+	sem := make(chan struct{}, 4)
+	var wg sync.WaitGroup
+	for i, pt := range patches {
+		wg.Add(1)
+		go func(i int, pt string) {
+			defer wg.Done()
+			sem <- struct{}{}
+			defer func() { <-sem }()
+			l, k, s := runOneMutant(prop, repo, pt)
+			outs[i] = out{l, k, s}
+		}(i, pt)
+	}
+	wg.Wait()
+	for _, o := range outs {
+		res.Lines = append(res.Lines, o.line)
+		switch {
+		case o.killed:
+			res.Killed++
+		case o.skipped:
+			res.Skipped++
+		default:
+			res.Failed++
+			res.FailLines = append(res.FailLines, "property="+prop+" "+o.line)
+		}
+	}
+	if res.Total == 0 {
+		res.Failed++
+		res.FailLines = append(res.FailLines, "property="+prop+" no variants found under "+filepath.Join(dir, prop))
+	}
+	return res
 }
